@@ -22,6 +22,7 @@ theorem skel_OIDCProvider_createSession_ok : skel_OIDCProvider_createSession = (
   "case ErrMissingIDToken",
   "if !refresh",
   "return nil, errors.New(\"token response did not contain an id_token\")",
+  "errors.New",
   "case ",
   "return nil, fmt.Errorf(\"could not verify id_token: %v\", err)",
   "p.buildSessionFromClaims",
@@ -55,5 +56,134 @@ theorem skel_CreateTokenToSessionFunc_ok : skel_CreateTokenToSessionFunc = ([
   "return newSession, nil"] : List String) := rfl
 
 theorem verifier_skipClientIDCheck_ok : verifier_skipClientIDCheck = (["true"] : List String) := rfl
+
+theorem skel_ProviderData_buildSessionFromClaims_ok : skel_ProviderData_buildSessionFromClaims = ([
+  "if rawIDToken == \"\"",
+  "return ss, nil",
+  "if err != nil",
+  "return nil, err",
+  "if err != nil",
+  "extractor.GetClaimInto",
+  "return nil, err",
+  "if verifyEmail",
+  "extractor.GetClaimInto",
+  "if err != nil",
+  "return nil, err",
+  "if exists && !verified",
+  "return nil, fmt.Errorf(\"email in id_token (%s) isn't verified\", ss.Email",
+  "return ss, nil"] : List String) := rfl
+
+theorem skel_ProviderData_verifyIDToken_ok : skel_ProviderData_verifyIDToken = ([
+  "if strings.TrimSpace(rawIDToken) == \"\"",
+  "strings.TrimSpace",
+  "return nil, ErrMissingIDToken",
+  "if p.Verifier == nil",
+  "return nil, ErrMissingOIDCVerifier",
+  "return p.Verifier.Verify(ctx, rawIDToken)",
+  "p.Verifier.Verify"] : List String) := rfl
+
+theorem skel_ProviderData_checkNonce_ok : skel_ProviderData_checkNonce = ([
+  "if err != nil",
+  "return fmt.Errorf(\"id_token claims extraction failed: %v\", err)",
+  "if err != nil",
+  "extractor.GetClaimInto",
+  "return fmt.Errorf(\"could not extract nonce from ID Token: %v\", err)",
+  "if !s.CheckNonce(nonce)",
+  "s.CheckNonce",
+  "return errors.New(\"id_token nonce claim does not match the session",
+  "errors.New",
+  "return nil"] : List String) := rfl
+
+theorem skel_idTokenVerifier_verifyAudience_ok : skel_idTokenVerifier_verifyAudience = ([
+  "if audienceClaimExists",
+  "case []interface{}",
+  "if err != nil",
+  "return false, fmt.Errorf(\"audience claim %s holds unsupported value: %v\",",
+  "case string",
+  "case ",
+  "return false, fmt.Errorf(\"audience claim %s holds unsupported type %T\", au",
+  "return v.isValidAudience(audienceClaim, token.Audience, v.allowedAu",
+  "v.isValidAudience",
+  "return false, fmt.Errorf(\"audience claims %v do not exist in claims: %v\","] : List String) := rfl
+
+theorem skel_idTokenVerifier_isValidAudience_ok : skel_idTokenVerifier_isValidAudience = ([
+  "if allowedAudienceExists",
+  "return true, nil",
+  "return false, fmt.Errorf( \"audience from claim %s with value %s does not m"] : List String) := rfl
+
+theorem skel_claimExtractor_GetClaim_ok : skel_claimExtractor_GetClaim = ([
+  "if claim == \"\"",
+  "return nil, false, nil",
+  "if value != nil",
+  "getClaimFrom",
+  "return value, true, nil",
+  "if c.profileClaims == nil",
+  "c.loadProfileClaims",
+  "if err != nil",
+  "return nil, false, fmt.Errorf(\"failed to fetch claims from profile URL: %v\", er",
+  "if value != nil",
+  "getClaimFrom",
+  "return value, true, nil",
+  "return nil, false, nil"] : List String) := rfl
+
+theorem skel_claimExtractor_GetClaimInto_ok : skel_claimExtractor_GetClaimInto = ([
+  "c.GetClaim",
+  "if err != nil",
+  "return false, fmt.Errorf(\"could not get claim %q: %v\", claim, err)",
+  "if !exists",
+  "return false, nil",
+  "if err != nil",
+  "coerceClaim",
+  "return false, fmt.Errorf(\"could no coerce claim: %v\", err)",
+  "return true, nil"] : List String) := rfl
+
+theorem skel_OIDCProvider_redeemRefreshToken_ok : skel_OIDCProvider_redeemRefreshToken = ([
+  "if err != nil",
+  "return err",
+  "time.Now().Add",
+  "c.TokenSource(ctx, t).Token",
+  "c.TokenSource",
+  "if err != nil",
+  "return fmt.Errorf(\"failed to get token: %v\", err)",
+  "p.createSession",
+  "if err != nil",
+  "return fmt.Errorf(\"unable create new session state from response: %",
+  "if newSession.IDToken != \"\"",
+  "return nil"] : List String) := rfl
+
+theorem skel_jwtSessionLoader_getJwtSession_ok : skel_jwtSessionLoader_getJwtSession = ([
+  "req.Header.Get",
+  "if auth == \"\"",
+  "return nil, nil",
+  "if err != nil",
+  "return nil, err",
+  "errors.New",
+  "if err != nil",
+  "return session, nil",
+  "return nil, k8serrors.NewAggregate(errs)"] : List String) := rfl
+
+theorem skel_jwtSessionLoader_findTokenFromHeader_ok : skel_jwtSessionLoader_findTokenFromHeader = ([
+  "splitAuthHeader",
+  "if err != nil",
+  "return \"\", err",
+  "if tokenType == \"Bearer\" && j.jwtRegex.MatchString(token)",
+  "j.jwtRegex.MatchString",
+  "return token, nil",
+  "if tokenType == \"Basic\"",
+  "return j.getBasicToken(token)",
+  "return \"\", fmt.Errorf(\"no valid bearer token found in authorization hea"] : List String) := rfl
+
+theorem skel_jwtSessionLoader_getBasicToken_ok : skel_jwtSessionLoader_getBasicToken = ([
+  "getBasicAuthCredentials",
+  "if err != nil",
+  "return \"\", err",
+  "if j.jwtRegex.MatchString(user)",
+  "j.jwtRegex.MatchString",
+  "if password == \"x-oauth-basic\" || password == \"\"",
+  "return user, nil",
+  "if j.jwtRegex.MatchString(password)",
+  "j.jwtRegex.MatchString",
+  "return password, nil",
+  "return \"\", fmt.Errorf(\"invalid basic auth token found in authorization"] : List String) := rfl
 
 end O2P.Expect.C04
